@@ -123,6 +123,7 @@ type State struct {
 	locals  []localCell // function-local cells (Alloc) that have not escaped
 	writes  []heapWrite   // heap writes on this path (for the frame check)
 	quiet   int
+	seen    map[string]bool
 	cells   map[string]Val // ref -> current value of a non-escaped local cell
 	snaps   map[string]map[string]string // lock term -> heap at its latest acquisition
 	calls   map[string]callRecord
@@ -188,6 +189,12 @@ func (st *State) clone() *State {
 	for k, v := range st.cells {
 		n.cells[k] = v
 	}
+	if st.seen != nil {
+		n.seen = make(map[string]bool, len(st.seen))
+		for k, v := range st.seen {
+			n.seen[k] = v
+		}
+	}
 	for k, v := range st.snaps {
 		n.snaps[k] = v // snapshots are immutable once taken
 	}
@@ -226,6 +233,17 @@ func (st *State) assume(t string) {
 		return
 	}
 	st.assumes = append(st.assumes, t)
+}
+
+func (st *State) assumeOnce(t string) {
+	if st.seen == nil {
+		st.seen = map[string]bool{}
+	}
+	if st.seen[t] {
+		return
+	}
+	st.seen[t] = true
+	st.assume(t)
 }
 
 func (st *State) note(format string, args ...any) {
